@@ -3,43 +3,9 @@
 //! usage: rqv <Cxx> [--tier quick|thorough] [--seed N] [--replay FILE]
 //! exit:  0 property held on everything explored, 1 VIOLATION printed, 2 inconclusive.
 
-mod c01;
-mod c02;
-mod c03;
-mod c04;
-mod c05;
-mod c06;
-mod c07;
-mod c08;
-mod c09;
-mod c10;
-mod c11;
-mod c12;
-mod c13;
-mod c14;
-mod c15;
-mod c16;
-mod c17;
-mod c18;
-mod c19;
-mod codec;
-mod reference;
-mod util;
 
-use util::{Report, Tier};
-
-pub struct Ctx {
-    pub tier: Tier,
-    pub seed: u64,
-    /// restrict the run to one named group of sub-checks (companion runs)
-    pub only: Option<String>,
-}
-
-impl Ctx {
-    pub fn wants(&self, group: &str) -> bool {
-        self.only.as_deref().map_or(true, |o| o == group)
-    }
-}
+use rqv::*;
+use rqv::util;
 
 fn usage() -> ! {
     eprintln!("usage: rqv <Cxx> [--tier quick|thorough] [--seed N] [--replay FILE]");
@@ -52,6 +18,55 @@ fn main() {
         usage();
     }
     let prop = args[1].to_uppercase();
+    // auxiliary modes for the fuzzing engine
+    if prop == "GENCORPUS" {
+        // rqv GENCORPUS <target> <dir> <n> <seed>: random byte files; every byte string decodes
+        // to a valid structured case by construction
+        let (dir, n, seed) = (&args[3], args[4].parse::<u64>().unwrap(), args[5].parse::<u64>().unwrap());
+        std::fs::create_dir_all(dir).unwrap();
+        let mut rng = util::SplitMix::new(util::mix(seed, util::fnv_str(&args[2])));
+        for i in 0..n {
+            let len = match rng.below(4) {
+                0 => 8 + rng.below(40),
+                1 => 40 + rng.below(200),
+                _ => 100 + rng.below(900),
+            } as usize;
+            std::fs::write(format!("{dir}/gen-{i:06}"), rng.bytes(len)).unwrap();
+        }
+        println!("wrote {n} inputs to {dir}");
+        return;
+    }
+    if prop == "FUZZ" {
+        // rqv FUZZ <target> <file|dir>...: run the fuzz target's oracle on saved inputs
+        util::install_quiet_panic_hook();
+        let target = args[2].clone();
+        let mut files: Vec<String> = vec![];
+        for a in &args[3..] {
+            if std::path::Path::new(a).is_dir() {
+                for e in std::fs::read_dir(a).unwrap().flatten() {
+                    files.push(e.path().to_string_lossy().to_string());
+                }
+            } else {
+                files.push(a.clone());
+            }
+        }
+        files.sort();
+        let mut bad = 0;
+        for f in &files {
+            let data = std::fs::read(f).unwrap_or_default();
+            let r = match util::catch(|| rqv::fuzz_target(&target, &data)) {
+                Ok(r) => r,
+                Err(p) => Err(format!("panic: {p}")),
+            };
+            if let Err(m) = r {
+                bad += 1;
+                println!("VIOLATION property={} replay={}", rqv::fuzz_property(&target, &m), f);
+                println!("  {m}");
+            }
+        }
+        println!("FUZZ target={target} inputs={} failing={bad}", files.len());
+        std::process::exit(if bad > 0 { 1 } else { 0 });
+    }
     let mut tier = match std::env::var("VERIF_TIER").ok().as_deref() {
         Some("thorough") => Tier::Thorough,
         _ => Tier::Quick,
